@@ -141,6 +141,16 @@ CHECKS = {
         note=("Trusted: vlib/simk.py fd/fdinfo/io files and fault plan; for access mode 3 any mode string is accepted; a descriptor closing mid-scan may or may not be listed."),
         design="DESIGN.md section 3 C14",
     ),
+    "C15": dict(
+        level="exploration",
+        technique="property-based testing (Hypothesis) under a harness-owned virtual clock: generated exit-instant placements, statuses, timeouts and EINTR injections -> oracle over the log of clock readings, sleeps and polls; live tier on real children",
+        text=("wait()/wait_procs() run against a simulated waitpid/kill(0)/timer/sleep; the exit instant is generated on a grid around the deterministic polling instants and the deadline, "
+              "for child / non-child / never-existed PIDs, exit codes 0-255 and signals 1-64, all timeout classes, EINTR on any subset of waitpid calls and repeated calls; the oracle "
+              "checks status decoding, never-early return, caching without syscalls, TimeoutExpired fields and timing (>= deadline, <= deadline + 40 ms, process alive at the last completed "
+              "poll), the back-off sequence, timeout=0 without sleeps, and wait_procs partition / returncode / callback / elapsed rules. Live tier: values on 9 real children. Search, not proof."),
+        note=("Trusted: vlib/simk.py waitpid/kill/virtual-time model (step-bounded, no wall clock). Real scheduler latency is not measured; a poll interrupted by EINTR is treated as carrying no information."),
+        design="DESIGN.md section 3 C15",
+    ),
     "C19": dict(
         level="exploration",
         technique="property-based testing (Hypothesis): generated /sys and /proc hardware trees -> statement arithmetic on the model tree",
